@@ -254,7 +254,9 @@ class workq:
 
         alternatives = []
         for watching, ev in self._waiters:
-            if channel in watching or not watching:
+            # a waiter whose result is already set has a job on its way: setting
+            # it again would overwrite (and lose) that job
+            if (channel in watching or not watching) and not ev.ready():
                 alternatives.append(ev)
 
         heapq.heappush(self.timeoutq, (job.timeout, job))
